@@ -305,6 +305,54 @@ def check_registry(repo, rep):
     rep.floor(rid, 8)
 
 
+def check_cancel_hook_submission(repo, rep):
+    rid = "C05-R4c"
+    rep.rule(rid, "an order submitted from a hook that runs inside Strategy._execute_cancel (on_cancel / on_route_canceled) stays reported: "
+                  "_execute_cancel is interpreted in backtest mode (not unit testing) with an on_cancel hook that registers a new ACTIVE "
+                  "order; afterwards that order must still be in OrdersState.storage and active_storage - otherwise it is an active "
+                  "order nobody can see, execute or cancel")
+    st = {k: W.enum_value(repo, "order_statuses", k) for k in ("ACTIVE", "EXECUTED", "CANCELED")}
+    buy = W.enum_value(repo, "sides", "BUY")
+    limit = W.enum_value(repo, "order_types", "LIMIT")
+    KEY = "Sandbox-BTC-USDT"
+    STRAT = "jesse/strategies/Strategy.py"
+
+    def mk(dec):
+        it = Interp(repo, stubs=W.base_stubs(), decisions=dec, samples=[{"q": Fraction(1), "p": Fraction(10), "now": Fraction(5), "t_created": Fraction(0)}])
+        it.stubs[f"{W.HELPERS}:is_unit_testing"] = lambda i, a, k: False
+        old = W.make_order(repo, "OLD", buy, limit, R.atom("q"), R.atom("p"), status=st["CANCELED"])
+        orders = W.obj_of(repo, ORDERS_STATE, "OrdersState", "store.orders", {"storage": {KEY: [old]}, "active_storage": {KEY: [old]}, "to_execute": []})
+        it.overrides[f"{W.STORE}:store"] = Obj("StoreClass", name="store", attrs={"orders": orders}, open_world=True)
+        pos = Obj("Position", name="position", attrs={"is_open": False, "is_close": True}, open_world=True)
+        broker = Obj("Broker", name="broker", attrs={}, open_world=True)
+        W.bind(broker, "cancel_all_orders", lambda i, a, k: None)
+        strat = W.obj_of(repo, STRAT, "Strategy", "strategy", {"position": pos, "broker": broker, "exchange": "Sandbox", "symbol": "BTC-USDT", "timeframe": "1m",
+                                                               "increased_count": num(0), "reduced_count": num(0)})
+        W.bind(strat, "_broadcast", lambda i, a, k: None)
+        new = W.make_order(repo, "NEW", buy, limit, R.atom("q"), R.atom("p"), status=st["ACTIVE"])
+
+        def on_cancel(i, a, k):
+            i.call(i.getattr(orders, "add_order"), [new], {})
+        W.bind(strat, "on_cancel", on_cancel)
+        it.orders, it.new = orders, new
+        return it, lambda it: it.call(it.getattr(strat, "_execute_cancel"), [], {})
+    n = 0
+    for out in explore(mk, 16):
+        n += 1
+        if out.kind != "return":
+            rep.violation(rid, "execute_cancel|raises", f"_execute_cancel raises {out.value}")
+            continue
+        o = out.interp.orders
+        in_st = out.interp.new in o.attrs["storage"][KEY]
+        in_act = out.interp.new in o.attrs["active_storage"][KEY]
+        if not (in_st and in_act):
+            rep.violation(rid, "execute_cancel|hook-order-dropped",
+                          f"an ACTIVE order registered by the on_cancel hook is {'not ' if not in_st else ''}in storage and {'not ' if not in_act else ''}in active_storage after "
+                          f"_execute_cancel (the per-symbol storage is cleared AFTER the hook): it stays ACTIVE but is no longer reported")
+        rep.instance(rid, f"path{n}", {"in_storage": in_st, "in_active_storage": in_act})
+    rep.floor(rid, 1)
+
+
 def check_match_loop(repo, rep, tier):
     rid = "C05-R5"
     rep.rule(rid, "matching loop: a cancelled order still present in the active list is skipped; no order fills twice "
@@ -328,6 +376,7 @@ def run(repo: Repo, rep, tier: str):
     rep.guarded(check_status_writers, repo, rep)
     rep.guarded(check_trade_record, repo, rep)
     rep.guarded(check_registry, repo, rep)
+    rep.guarded(check_cancel_hook_submission, repo, rep)
     rep.guarded(check_match_loop, repo, rep, tier)
 
 
